@@ -643,7 +643,12 @@ func genWorldPlan(prop string, master uint64, run int) Plan {
 						v = "?" + v
 					}
 				}
-				b.add(Op{K: "set", P: 1, H: u, W: 7, A: QS(v)})
+				if r.Chance(1, 6) {
+					// building a query step by step: u.SetSearch(u.Search() + "&k=v")
+					b.add(Op{K: "set", P: 1, H: u, W: 7, V: "own", A: QS(b.g.pick([]string{"&k=v", "&x", "&&y=1", "&=", "=v", "&a=1&b=2", "&" + b.g.Name() + "=" + b.g.Value(), "&"}))})
+				} else {
+					b.add(Op{K: "set", P: 1, H: u, W: 7, A: QS(v)})
+				}
 				for _, s := range b.sps {
 					b.stale[s] = true
 				}
